@@ -63,13 +63,13 @@ private def toRBlocks (flags : List Bool) (r : List (Bool × List Int)) : Option
     | [] => none
 
 /-- directional fill along axis 1 -/
-private def frameDir1 (fwd : Bool) (limit : Nat) (fixed : Bool) (layout : List (Nat × Bool)) (rows : List (List Int)) :
+private def frameDir1 (fwd : Bool) (limit : Nat) (layout : List (Nat × Bool)) (rows : List (List Int)) :
     Option (List (List Int)) := do
   let split ← rows.mapM (splitRow layout)
   let flags := blockAny split layout.length (·.any isna)
   split.mapM fun r => do
     let bs ← toRBlocks flags r
-    pure (rowDirAxis1 isna fwd limit fixed bs).flatten
+    pure (rowDirAxis1 isna fwd limit bs).flatten
 
 /-- entry flags (`isna_entry[i]`) of one row, block by block in iteration order -/
 private def sidedEntries (leading : Bool) (bs : List (RBlock Int)) : List Bool :=
@@ -105,7 +105,7 @@ private def frameDir0 (fwd : Bool) (limit : Nat) (layout : List (Nat × Bool)) (
   pure (transpose rows.length out)
 
 private def frameSided0 (leading : Bool) (v : Int) (layout : List (Nat × Bool)) (rows : List (List Int)) :
-    Option (Except Err (List (List Int))) := do
+    Option (List (List Int)) := do
   let split ← rows.mapM (splitRow layout)
   -- `sel[sided_index].any()` per block
   let edgeRow := if leading then split.head? else split.getLast?
@@ -115,8 +115,8 @@ private def frameSided0 (leading : Bool) (v : Int) (layout : List (Nat × Bool))
     | none => false
   let info := colInfo layout
   let cols := transpose info.length rows
-  let out := (cols.zip info).mapM fun (col, (d, k)) => colSidedAxis0 isna leading v (!d) (flags.getD k false) col
-  pure (out.map (transpose rows.length))
+  let out := (cols.zip info).map fun (col, (d, k)) => colSidedAxis0 isna leading v (!d) (flags.getD k false) col
+  pure (transpose rows.length out)
 
 private def toBlocks {β : Type} (layout : List (Nat × Bool)) (rows : List (List β)) : Option (List (Block β)) := do
   let split ← rows.mapM (splitRow layout)
@@ -177,25 +177,25 @@ def nAOps : List SExp → Option String
   | [.atom "na.s.count", a] => do
       let a ← ints? a
       pure (answer (.ok (ofNats [seriesCount isna a])))
-  | [.atom "na.f.dir", axis, fwd, limit, fixed, layout, rows] => do
-      let axis ← nat? axis; let fwd ← bool? fwd; let limit ← nat? limit; let fixed ← bool? fixed
+  | [.atom "na.f.dir", axis, fwd, limit, layout, rows] => do
+      let axis ← nat? axis; let fwd ← bool? fwd; let limit ← nat? limit
       let layout ← layout? layout; let rows ← rows? rows
-      if axis = 1 then (frameDir1 fwd limit fixed layout rows).map fun r => answer (.ok (ofRows r))
+      if axis = 1 then (frameDir1 fwd limit layout rows).map fun r => answer (.ok (ofRows r))
       else if axis = 0 then (frameDir0 fwd limit layout rows).map fun r => answer (.ok (ofRows r))
       else none
-  | [.atom "na.f.dirall", maxlimit, fixed, layout, rows] => do
+  | [.atom "na.f.dirall", maxlimit, layout, rows] => do
       -- all directional fills at once: axis 0 then 1; forward then backward; limit 0..maxlimit
-      let maxlimit ← nat? maxlimit; let fixed ← bool? fixed; let layout ← layout? layout; let rows ← rows? rows
+      let maxlimit ← nat? maxlimit; let layout ← layout? layout; let rows ← rows? rows
       let combos := [0, 1].flatMap fun axis => [true, false].flatMap fun fwd =>
         (List.range (maxlimit + 1)).map fun limit => (axis, fwd, limit)
       let outs ← combos.mapM fun (axis, fwd, limit) =>
-        if axis = 1 then frameDir1 fwd limit fixed layout rows else frameDir0 fwd limit layout rows
+        if axis = 1 then frameDir1 fwd limit layout rows else frameDir0 fwd limit layout rows
       pure (answer (.ok (.list (outs.map ofRows))))
   | [.atom "na.f.sided", axis, leading, v, layout, rows] => do
       let axis ← nat? axis; let leading ← bool? leading; let v ← int? v
       let layout ← layout? layout; let rows ← rows? rows
       if axis = 1 then (frameSided1 leading v layout rows).map fun r => answer (.ok (ofRows r))
-      else if axis = 0 then (frameSided0 leading v layout rows).map fun r => answer (r.map ofRows)
+      else if axis = 0 then (frameSided0 leading v layout rows).map fun r => answer (.ok (ofRows r))
       else none
   | [.atom "na.f.isna", layout, rows] => do
       let layout ← layout? layout; let rows ← rows? rows
